@@ -2,7 +2,7 @@
 (* Bounded model + replay generator for Udptl.tla (EXT03).                    *)
 EXTENDS Udptl, Json
 
-DgJson(k) == [k |-> k, seq |-> SeqOf(k), red |-> Reds(k)]
+DgJson(h) == [op |-> h.op, k |-> h.k, seq |-> SeqOf(h.k), red |-> IF h.op = "recv" THEN Reds(h.k) ELSE <<>>]
 EdgeRec ==
   [ cfg |-> cfg,
     pre |-> [i \in 1..Len(hist) |-> DgJson(hist[i])],
